@@ -22,6 +22,7 @@ RULE = (
     "vertices are cell vertices, triangle covered by the cell, areas sum to the cell area, holes produce "
     "nothing, vertex indexes valid, vertex list free of duplicates.  Non-trivial: polygons with a reflex "
     "or collinear vertex."
+    ' Also: the same polygons at cell sizes 2^-17 and 2^12, grids with concave cells after cells without geometry, mostly-empty grids with more cells than vertices (24x24, thorough 260x255).'
 )
 LEVEL_TEXT = ("all simple lattice polygons up to the stated vertex count (convex, reflex, collinear, both windings, "
               "every start vertex) and every grid family with holes: exact area partition, n-2 triangles, containment")
